@@ -31,6 +31,18 @@ def keep (ig : List Str) : List Str → List α → List α
   | n :: ns, v :: vs => if ig.contains n then keep ig ns vs else v :: keep ig ns vs
   | _, _ => []
 
+/-- the slots `Record._pack(excluded_fields=arg)` leaves out: the argument decides; without one, nothing is left out
+    unless the source consults the comparison-ignore configuration by itself (regenerated facts) -/
+def packExcluded (arg : Option (List Str)) (globalIg : List Str) : List Str :=
+  match arg with
+  | some xs => xs
+  | none => if Gen.recordPackReadsGlobalIgnore || Gen.recordPackExcludedDefault != "None" then globalIg else []
+
+/-- what the binary packer asks `_pack` to leave out (it passes no `excluded_fields` argument: regenerated
+    `Gen.packerPackArgs` / `Gen.packerPassesExcluded`) while a comparison-ignore configuration `globalIg` is in force -/
+def packerExcluded (globalIg : List Str) : List Str :=
+  if Gen.packerPassesExcluded then globalIg else packExcluded none globalIg
+
 mutual
 /-- drop the ignored slots of every record in the tree (each nested `__eq__` / `__hash__` applies the same global) -/
 def norm {P : Type} (ig : List Str) : Val P → Val P
